@@ -450,7 +450,7 @@ def trace_consequence(m, ent, b, closure_facets, fsel, bad, out, st):
                 un = (val * n).sum(axis=0)
                 tr = np.abs(val - un[None] * n).max(axis=0)
             else:
-                tr = np.abs(val).max(axis=0)
+                tr = np.abs(val).reshape((-1,) + val.shape[-2:]).max(axis=0)
             nz = tr.max(axis=1) > 1e-10
             for k in np.nonzero(nz)[0]:
                 d = int(ed[j, k])
